@@ -65,12 +65,16 @@ type c35Env struct {
 	credit uint64 // win at start + everything added since
 	closed bool
 	steps  int
+	act    func() int // optional replacement of the default step (same result convention)
 }
 
 // step is one environment action while the writer waits: close the window, or add an arbitrary
 // uint32 amount. Result: 0 no progress (added 0), 1 window opened, 2 closed.
 func (e *c35Env) step() int {
 	e.steps++
+	if e.act != nil {
+		return e.act()
+	}
 	if verifrt.Bool() {
 		e.closed = true
 		e.w.close()
@@ -462,4 +466,120 @@ func Verif_C35_BufferFIFO() {
 		}
 		off += n
 	}
+}
+
+// c35Pipe is a packetConn that hands every written packet synchronously to the peer channel's
+// handlePacket (what the peer's mux loop would do) and records the result.
+type c35Pipe struct {
+	peer  *channel
+	n     int
+	errs  int
+	sizes []int
+	sent  chan struct{}
+}
+
+func (c *c35Pipe) writePacket(p []byte) error {
+	c.n++
+	c.sizes = append(c.sizes, len(p))
+	if err := c.peer.handlePacket(append([]byte{}, p...)); err != nil {
+		c.errs++
+	}
+	if c.sent != nil {
+		c.sent <- struct{}{}
+	}
+	return nil
+}
+func (c *c35Pipe) readPacket() ([]byte, error) { return nil, io.EOF }
+func (c *c35Pipe) Close() error                { return nil }
+
+// Verif_C35_EndToEnd: sender and receiver composed (API level). Channel S (outbound, mux A) and
+// channel R (inbound, mux B) are connected as after open/confirm: S.remoteId = R.localId,
+// S.maxRemotePayload = R.maxIncomingPayload = any uint32 >= 1, S's view of the peer window ==
+// R.myWindow == any uint32 w, R.myConsumed any value with w + myConsumed <= channelWindowSize.
+// Packets written by either side are handed synchronously to the other side's real
+// handlePacket. S writes 0..5 symbolic bytes on stream code 0|1|2. When S runs out of window
+// the environment is the receiving application: it reads 1..3 bytes with the real ReadExtended
+// (whose window adjust reaches S through the real handlePacket); <= 2 such steps, a wait with
+// nothing to read is outside the claim (the pre-state itself is a stall). Decides: the
+// receiver never reports an error (no window violation, no oversize, no mis-sized packet) and
+// neither does the sender for the adjusts; after every step the sender's window never exceeds
+// the receiver's (S.win <= R.myWindow); all bytes written arrive in order on the right stream
+// (code 2: discarded, nothing buffered); S writes everything.
+func Verif_C35_EndToEnd() {
+	n := verifrt.Choose(0, 5)
+	data := verifrt.Bytes(n)
+	toR, toS := &c35Pipe{}, &c35Pipe{}
+	mA, mB := c35Mux(toR), c35Mux(toS)
+	S := mA.newChannel("c35", channelOutbound, nil)
+	R := mB.newChannel("c35", channelInbound, nil)
+	toR.peer, toS.peer = R, S
+	S.decided, R.decided = true, true
+	S.remoteId, R.remoteId = R.localId, S.localId
+	mp := verifrt.U32()
+	verifrt.Assume(mp >= 1)
+	S.maxRemotePayload, R.maxIncomingPayload = mp, mp
+	w, cons := verifrt.U32(), verifrt.U32()
+	verifrt.Assume(uint64(w)+uint64(cons) <= channelWindowSize)
+	S.remoteWin.win, R.myWindow, R.myConsumed = w, w, cons
+	code := uint32(verifrt.Choose(0, 2))
+	var got []byte
+	env := &c35Env{w: &S.remoteWin}
+	env.act = func() int {
+		unread := 0
+		if code < 2 {
+			unread = c35Sum(toR.sizes, code) - len(got)
+		}
+		if unread <= 0 {
+			verifrt.Assume(false) // nothing to read: the reader cannot open the window
+			return 2
+		}
+		buf := make([]byte, verifrt.Choose(1, 3))
+		k, _ := R.ReadExtended(buf, code)
+		got = append(got, buf[:k]...)
+		return 1
+	}
+	if !verifrt.Symbolic() {
+		toR.sent = make(chan struct{}, 64)
+	}
+	env.install(toR.sent)
+
+	nw, err := S.WriteExtended(data, code)
+
+	verifrt.Assert(err == nil && nw == n, "sender writes all data")
+	verifrt.Assert(toR.errs == 0, "compliant receiver never reports a window / size violation")
+	verifrt.Assert(toS.errs == 0, "sender accepts every window adjust")
+	verifrt.Assert(S.remoteWin.win <= R.myWindow, "sender's view of the window never exceeds the receiver's window")
+	if env.steps > 0 {
+		verifrt.Reach("waited")
+	}
+	if code == 2 {
+		verifrt.Reach("discarded")
+		verifrt.Assert(len(c35Drain(R.pending, n)) == 0 && len(c35Drain(R.extPending, n)) == 0, "unknown extended data is not buffered")
+		return
+	}
+	rest := c35Drain(R.pending, n)
+	other := c35Drain(R.extPending, n)
+	if code == 1 {
+		rest, other = other, rest
+	}
+	got = append(got, rest...)
+	verifrt.Assert(len(other) == 0, "nothing arrives on the other stream")
+	verifrt.Assert(len(got) == n, "every byte arrives")
+	for i := 0; i < n && i < len(got); i++ {
+		verifrt.Assert(got[i] == data[i], "bytes arrive in order")
+	}
+	verifrt.Reach("delivered")
+}
+
+// c35Sum is the total payload of the data packets of the given sizes (header 9 or 13 bytes).
+func c35Sum(sizes []int, code uint32) int {
+	hl := 9
+	if code > 0 {
+		hl = 13
+	}
+	t := 0
+	for _, s := range sizes {
+		t += s - hl
+	}
+	return t
 }
